@@ -90,6 +90,11 @@ type vfC19Case struct {
 	// Forward: before the pre-export traffic the exported side's send counter is advanced to this value (a
 	// connection that has been running for a long time; sequence numbers have 48 bits). 0: untouched.
 	Forward uint64
+	// DualOpts: the exported endpoint was created, and is resumed, with options that enable DTLS 1.2 and 1.3 (its peer
+	// is 1.2-only, so DTLS 1.2 was negotiated). Poll: the first call on the resumed connection is a Read whose deadline
+	// has already passed (the non-blocking poll idiom).
+	DualOpts bool
+	Poll     bool
 	// Move: the resumed connection speaks from another UDP address (only where the untouched peer receives records
 	// with a connection ID and can therefore follow)
 	Move bool
@@ -102,6 +107,12 @@ func (c vfC19Case) ID() string {
 	}
 	if c.Move {
 		id += "|moved"
+	}
+	if c.DualOpts {
+		id += "|dual-stack-options"
+	}
+	if c.Poll {
+		id += "|first-call-expired-read"
 	}
 
 	return id
@@ -185,12 +196,15 @@ func vfC19Snapshot(c *Conn) (vfC19Snap, State, bool) {
 }
 
 type vfC19World struct {
-	moves  int
-	n      *vfNet
-	c, s   *vfC19Peer
-	seq    int
-	cfg    vfCfg
-	failed string
+	resumeOpts []Option // options the exported side is resumed with
+	poll       bool
+	preIO      string // what the resumed connection reported before its first Read/Write/Handshake ("" = same as before)
+	moves      int
+	n          *vfNet
+	c, s       *vfC19Peer
+	seq        int
+	cfg        vfCfg
+	failed     string
 }
 
 func vfC19Setup(c vfC19Case) (*vfC19World, error) {
@@ -213,7 +227,16 @@ func vfC19Setup(c vfC19Case) (*vfC19World, error) {
 	}
 	cfg.HelloVerify = c.Idx%2 == 0
 	co, so := cfg.Options(nil, nil)
-	w := &vfC19World{n: vfNewNet(), cfg: cfg}
+	w := &vfC19World{n: vfNewNet(), cfg: cfg, poll: c.Poll}
+	if c.DualOpts {
+		dual := []Option{WithMinVersion(protocol.Version1_2), WithMaxVersion(protocol.Version1_3)}
+		w.resumeOpts = dual
+		if c.Side == "s" {
+			so = append(so, WithMinVersion(protocol.Version1_2), WithMaxVersion(protocol.Version1_3))
+		} else {
+			co = append(co, WithMinVersion(protocol.Version1_2), WithMaxVersion(protocol.Version1_3))
+		}
+	}
 	w.c = &vfC19Peer{name: "c", raddr: vfAddr(vfServerAddr)}
 	w.s = &vfC19Peer{name: "s", raddr: vfAddr(vfClientAddr)}
 	w.c.ep, w.s.ep = w.n.Endpoint("c", vfClientAddr), w.n.Endpoint("s", vfServerAddr)
@@ -310,11 +333,26 @@ func (w *vfC19World) exportMove(p *vfC19Peer, mutate func([]byte) []byte, move b
 		p.ep = w.n.Endpoint(p.name, fmt.Sprintf("10.0.9.%d:%d", w.moves, 4000+w.moves))
 	}
 	p.sock = &vfDetach{ep: p.ep}
-	nc, err := ResumeWithOptions(&st2, p.sock, p.raddr)
+	nc, err := ResumeWithOptions(&st2, p.sock, p.raddr, w.resumeOpts...)
 	if err != nil {
 		return before, after, "ResumeWithOptions", err
 	}
 	p.conn = nc
+	// what the imported connection reports before anything was read or written on it
+	w.preIO = ""
+	if pre, _, ok := vfC19Snapshot(nc); !ok {
+		w.preIO = "ConnectionState() reports no state"
+	} else if pre != before {
+		w.preIO = fmt.Sprintf("%+v", pre)
+	}
+	if w.poll {
+		_ = nc.SetReadDeadline(time.Now().Add(-time.Second))
+		buf := make([]byte, 64)
+		if _, rerr := nc.Read(buf); rerr == nil {
+			return before, after, "Read", errors.New("a Read with an expired deadline returned data")
+		}
+		_ = nc.SetReadDeadline(time.Time{})
+	}
 	if err = nc.Handshake(); err != nil {
 		p.pump()
 
@@ -433,6 +471,9 @@ func vfC19Run(t *testing.T, res *vfResult, c vfC19Case) {
 			return
 		}
 		res.Count("exports", 1)
+		if w.preIO != "" {
+			violate("parameters-not-reported-before-first-io", fmt.Sprintf("right after ResumeWithOptions, before any Read/Write/Handshake, the resumed %s reported %s instead of %+v", x.name, w.preIO, before))
+		}
 		if before != after {
 			violate("parameters-differ-after-resume", fmt.Sprintf("negotiated parameters / exporter of the resumed %s differ: before %+v after %+v", x.name, before, after))
 		}
@@ -835,6 +876,16 @@ func TestVF_C19(t *testing.T) {
 				cases = append(cases, vfC19Case{Suite: s, CID: cid, Side: side, I: 1, J: 1, Idx: idx, Move: true, SRTP: k%2 == 0})
 				idx++
 			}
+		}
+	}
+	for k, s := range []string{"ECDSA-GCM128", "ECDSA-CBC", "PSK-CCM8"} {
+		for _, side := range []string{"c", "s"} {
+			if s != "PSK-CCM8" { // (a PSK-only configuration never enables DTLS 1.3)
+				cases = append(cases, vfC19Case{Suite: s, CID: []int{-1, 4}[k%2], Side: side, I: 1, J: 1, Idx: idx, DualOpts: true})
+				idx++
+			}
+			cases = append(cases, vfC19Case{Suite: s, CID: []int{-1, 4}[k%2], Side: side, I: 1, J: 1, Idx: idx, Poll: true})
+			idx++
 		}
 	}
 	vfBubbles(t, len(cases), func(t *testing.T, i int) { vfC19Run(t, res, cases[i]) })
